@@ -279,14 +279,14 @@ def c14(ctx):
 HARNESS_FLAVOURS["crashmon"] = ("rel",)
 
 
-def crash_jobs(ctx, focus, ncases, batches, points_max, depth, nested_max, first=0, flavour="rel", writers=1):
+def crash_jobs(ctx, focus, ncases, batches, points_max, depth, nested_max, first=0, flavour="rel", writers=1, keypad=0):
     jobs = []
     for i in range(first, first + ncases):
         d = os.path.join(ctx.scratch, "cr-%s-%d" % (focus, i))
         jobs.append(hjob("crashmon", flavour,
                          ["--seed", ctx.seed, "--case", i, "--focus", focus, "--batches", batches,
                           "--points-max", points_max, "--depth", depth, "--nested-max", nested_max,
-                          "--writers", writers, "--dir", d],
+                          "--writers", writers, "--keypad", keypad, "--dir", d],
                          "%s/%d/w%d" % (focus, i, writers), timeout=3000))
     return jobs
 
@@ -312,6 +312,9 @@ def crash_extras(agg):
         keys_compared=agg.n("keys_compared"),
         images_with_two_logs=agg.n("images_with_two_logs"), images_with_dbtmp=agg.n("images_with_dbtmp"),
         images_with_torn_manifest_tail=agg.n("images_with_torn_manifest_tail"),
+        workloads_with_multiblock_manifest=agg.n("workloads_with_multiblock_manifest"),
+        kill_points_inside_multiblock_wal_record=agg.n("points_inside_multiblock_wal_record"),
+        kill_points_inside_multiblock_manifest_record=agg.n("points_inside_multiblock_manifest_record"),
         current_checked=agg.n("current_checked"),
         manifests_replayed_independently=agg.n("manifests_replayed_independently"),
         leak_checks_after_recovery=agg.n("leak_checks_after_recovery"),
@@ -353,9 +356,9 @@ def c03(ctx):
     if ctx.replay:
         return do_replay(ctx)
     if ctx.quick:
-        jobs = crash_jobs(ctx, "c03", 32, 120, 0, 2, 12)
+        jobs = crash_jobs(ctx, "c03", 16, 100, 0, 2, 9) + crash_jobs(ctx, "c03", 6, 40, 0, 2, 9, first=400, keypad=2600)
     else:
-        jobs = crash_jobs(ctx, "c03", 160, 400, 0, 3, 40)
+        jobs = crash_jobs(ctx, "c03", 128, 400, 0, 3, 40) + crash_jobs(ctx, "c03", 32, 160, 0, 3, 30, first=400, keypad=2600)
     agg = Agg().add(runner.run_jobs(jobs))
     return runner.finish(
         "C03", "fault_enumeration", ctx.tier, ctx.seed, ctx.t0, agg,
@@ -376,9 +379,9 @@ def c05(ctx):
     if ctx.replay:
         return do_replay(ctx)
     if ctx.quick:
-        jobs = crash_jobs(ctx, "c05", 16, 60, 0, 2, 6)
+        jobs = crash_jobs(ctx, "c05", 14, 60, 0, 2, 6) + crash_jobs(ctx, "c05", 2, 40, 0, 2, 6, first=400, keypad=2600)
     else:
-        jobs = crash_jobs(ctx, "c05", 80, 250, 0, 3, 30)
+        jobs = crash_jobs(ctx, "c05", 72, 250, 0, 3, 30) + crash_jobs(ctx, "c05", 8, 120, 0, 3, 30, first=400, keypad=2600)
     agg = Agg().add(runner.run_jobs(jobs))
     return runner.finish(
         "C05", "fault_enumeration", ctx.tier, ctx.seed, ctx.t0, agg,
